@@ -346,4 +346,82 @@ theorem FilterUnit_asWritten_drops (k : Bool) (f : Option (Payload → Roto.Verd
     filterUnit true k f (.upd (.withdraw m af)) = .fwd [] ∧ filterUnit true k f (.upd (.withdrawBulk ms)) = .fwd []
       ∧ filterUnit true k f (.os os) = .fwd [] := ⟨rfl, rfl, rfl⟩
 
+/-! #### the repaired filter unit -/
+
+theorem ribLoop_os {σ P : Type} (k : Bool) (f : Option (P → Roto.Verdict × List Roto.Output)) (ins : σ → P → σ)
+    (s : σ) (ps : List P) : ∀ d ∈ (Roto.ribLoop k f ins s ps).2.2, ∃ ms, d = Roto.Down.os ms := by
+  induction ps generalizing s with
+  | nil => intro d hd; simp [Roto.ribLoop] at hd
+  | cons p ps ih =>
+    intro d hd
+    simp only [Roto.ribLoop, List.mem_append] at hd
+    rcases hd with hd | hd
+    · unfold Roto.osOf at hd
+      split at hd
+      · simp at hd
+      · simp only [List.mem_singleton] at hd; exact ⟨_, hd⟩
+    · exact ih _ d hd
+
+theorem accR_noPre (c : Cfg) (rt : Route) : ({ c with pre := none } : Cfg).accR rt = true := by
+  simp [Cfg.accR, Roto.filterResult]
+
+theorem fu_payloads (c : Cfg) (r : Rib) (ps : List Payload) :
+    (ribUnitAll { c with pre := none } r
+      ((Roto.ribFilter c.keepPdRib c.preP (fun (s : Unit) _ => s) () ps).2.map fuConv)).1 = (filterPayload c r ps).1 := by
+  rw [filterPayload_state]
+  simp only [Roto.ribFilter, List.map_append]
+  have h1 : (ribUnitAll { c with pre := none } r
+      (List.map fuConv (Roto.ribLoop c.keepPdRib c.preP (fun (s : Unit) _ => s) () ps).2.2)).1 = r := by
+    apply ribUnitAll_os
+    intro i hi
+    simp only [List.mem_map] at hi
+    obtain ⟨d, hd, rfl⟩ := hi
+    obtain ⟨ms, rfl⟩ := ribLoop_os _ _ _ _ _ d hd
+    rfl
+  rw [ribUnitAll_append, h1, Roto.ribLoop_accepted, accepted_preP]
+  generalize ps.filter (fun pl => c.accR pl.route) = qs
+  have hall : ∀ l : List Payload, l.filter (fun pl => ({ c with pre := none } : Cfg).accR pl.route) = l := by
+    intro l; rw [List.filter_eq_self]; intro pl _; exact accR_noPre c pl.route
+  match qs with
+  | [] => rfl
+  | [q] => simp [Roto.ribForward, fuConv, ribUnitAll, ribUnit, filterPayload_state, hall]
+  | q :: q' :: l => simp [Roto.ribForward, fuConv, ribUnitAll, ribUnit, filterPayload_state, hall]
+
+theorem fu_step (c : Cfg) (r : Rib) (i : In) :
+    ∃ js, filterUnit false c.keepPdRib c.preP i = .fwd js ∧ (ribUnitAll { c with pre := none } r js).1 = (ribUnit c r i).1 := by
+  cases i with
+  | os ms => exact ⟨[.os ms], rfl, rfl⟩
+  | upd u =>
+    cases u with
+    | single p => exact ⟨(Roto.ribFilter c.keepPdRib c.preP (fun (s : Unit) _ => s) () [p]).2.map fuConv, by simp [filterUnit], by rw [fu_payloads]; rfl⟩
+    | bulk ps => exact ⟨(Roto.ribFilter c.keepPdRib c.preP (fun (s : Unit) _ => s) () ps).2.map fuConv, by simp [filterUnit], by rw [fu_payloads]; rfl⟩
+    | withdraw m af => exact ⟨[.upd (.withdraw m af)], rfl, rfl⟩
+    | withdrawBulk ms => exact ⟨[.upd (.withdrawBulk ms)], rfl, rfl⟩
+    | endOfStream => exact ⟨[.upd .endOfStream], rfl, rfl⟩
+    | outputStream => exact ⟨[.upd .outputStream], rfl, rfl⟩
+    | queryResult => exact ⟨[.upd .queryResult], rfl, rfl⟩
+
+theorem fuPipeIns_repaired (c : Cfg) (r : Rib) (o : List Out) (is : List In) :
+    ∃ o', fuPipeIns false c r o is = .ok (ribUnitAll c r is).1 o' := by
+  induction is generalizing r o with
+  | nil => exact ⟨o, rfl⟩
+  | cons i is ih =>
+    obtain ⟨js, hf, hs⟩ := fu_step c r i
+    simp only [fuPipeIns, hf, ribUnitAll, hs]
+    exact ih _ _
+
+/-- A `filter` unit that applies the filter as the RIB unit's `filter_payload` does and passes every other update
+    on is exact: for every filter and history the RIB behind it is C01's `run` of the sieved history. -/
+theorem FilterUnit_repaired : FilterUnit_full false := by
+  intro c h hing
+  have hc : ({ c with ing := none } : Cfg) = c := by cases c; simp_all
+  obtain ⟨o, ho⟩ := fuPipeIns_repaired c Rib.empty [] (h.flatMap (evIns c))
+  refine ⟨o, ?_⟩
+  rw [fuPipe, hc, ho]
+  congr 1
+  exact RotoRib_sieve c h
+
+example : ∃ o, fuPipe false cfgW [.upd 2 (.ok 1 [n8] []), .upd 2 (.ok 0 [] [n8]), .down 2] =
+    .ok (Rotonda.Rib.run {} [.upd 2 (.ok 1 [n8] []), .upd 2 (.ok 0 [] []), .down 2]) o := FilterUnit_repaired cfgW _ rfl
+
 end Rotonda.RotoRib
